@@ -24,7 +24,7 @@ def run_case(case: dict) -> dict:
         root = d / "root"
         root.mkdir()
         data, lines = annmodel.render_body(st, case["body"], case["eol"], case["final_nl"], case["bom"],
-                                           case["sheb_idx"], case["tws_line"])
+                                           case["sheb_idx"], case["tws_line"], case.get("quote", False))
         f = root / "body"
         f.write_bytes(data)
         opts = ["--copyright", "New Holder", "--license", "MIT", "--year", "2024", "--style", st["name"]]
@@ -60,6 +60,7 @@ def run(ctx: core.Ctx) -> int:
         "allowed slack: blank / whitespace-only lines touching the old or new header position, trailing blanks of the "
         "line directly above the header, a final newline when the header ends the file",
         "mixed line endings within one file are outside the domain",
+        "in a third of the cases a code line above the first one-line tagged comment quotes that comment's bytes in a string",
     ]
     maxl = 4 if q else 5
     mc = ctx.mc("HeaderGen", ctx.cfg_with("MC_C08.cfg", "t", MaxLines=maxl))
@@ -86,10 +87,10 @@ def run(ctx: core.Ctx) -> int:
             n = len(cases)
             cases.append({"tid": n + 1, "style": st, "sheb_idx": si, "body": g["body"], "replace": g["replace"],
                           "eol": eols[n % 3], "final_nl": n % 4 != 0, "bom": n % 7 == 0,
-                          "tws_line": (n % 5) if n % 2 else 0, "multi_line": n % 6 == 0,
+                          "tws_line": (n % 5) if n % 2 else 0, "multi_line": n % 6 == 0, "quote": n % 3 == 1,
                           "label": json.dumps({"style": st["name"], "class": g["st"], "replace": g["replace"],
                                                "kinds": [ln["k"] for ln in g["body"]], "eol": repr(eols[n % 3]),
-                                               "bom": n % 7 == 0, "finalNL": n % 4 != 0})})
+                                               "bom": n % 7 == 0, "finalNL": n % 4 != 0, "quote": n % 3 == 1})})
     events = ctx.pmap(run_case, cases, chunksize=64)
     for ev in events[:: max(1, len(events) // 4)][:4]:
         ctx.samples.append({"case": json.loads(ev["label"]), "before": ev["text"]["before"], "after": ev["text"]["after"],
@@ -121,7 +122,7 @@ def replay(ctx: core.Ctx, path: str) -> int:
     lab = json.loads(ev["label"])
     st = next(s for s in annmodel.style_table() if s["name"] == lab["style"])
     case = {"tid": 1, "style": st, "sheb_idx": 0, "body": ev["pre"], "replace": ev["replace"], "eol": eval(lab["eol"]),
-            "final_nl": lab["finalNL"], "bom": lab["bom"], "tws_line": 0, "multi_line": False, "label": ev["label"]}
+            "final_nl": lab["finalNL"], "bom": lab["bom"], "tws_line": 0, "multi_line": False, "quote": bool(lab.get("quote")), "label": ev["label"]}
     e = run_case(case)
     print(json.dumps(e["text"], indent=1))
     e.pop("text")
